@@ -8,13 +8,17 @@
 (* The spec action Run requires every result for one input to be equal      *)
 (* (2-safety by self-composition: no reference output is needed).           *)
 (***************************************************************************)
-EXTENDS TraceBase
+EXTENDS TraceBase, NamesBase
 CONSTANT Claim
 VARIABLES tid, l, st, verdict, drift, live
 vars == <<tid, l, st, verdict, drift, live>>
 Events == Traces[tid].events
 Ev     == Events[l]
+\* Words: utils.distinct_words on a set of words (each a sequence of characters): the result must be the minimal words,
+\* whatever order the sets were iterated in
+WordsClauses(ev) == << <<"C06.words", TRUE, ToSet(ev.result) = Minimal(ToSet(ev.words))>> >>
 Clauses(ev, s) ==
+  IF Claim = "C06" /\ ev.ev = "Words" THEN WordsClauses(ev) ELSE
   IF Claim # "C06" \/ ev.ev # "Run" THEN <<>> ELSE
   << <<"C06.total", TRUE, ev.status = 0>>,
      <<IF ev.how = "seed" THEN "C06.seed" ELSE IF ev.how = "order" THEN "C06.order" ELSE "C06.repeat",
